@@ -84,17 +84,29 @@ Definition pair_dec {A B} (dk : list Z -> dres (A * list Z)) (dv : list Z -> dre
   (bs : list Z) : dres ((A * B) * list Z) :=
   dbind (dk bs) (fun '(k, r) => dbind (dv r) (fun '(v, r') => DOk ((k, v), r'))).
 
-(* one chunk of an indefinite byte/text string: a definite string of the same major type *)
+(* the error produced by minicbor's [Error::type_mismatch(self.type_of(b)?)] after the byte [b] was
+   consumed ([r] = the input after [b]): end_of_input when [type_of] must peek past the end (0x38..0x3b) *)
+Definition mismatch {A} (b : Z) (r : list Z) : dres A :=
+  if (56 <=? b) && (b <=? 59) then match r with _ :: _ :: _ => DErr | _ => DEoi end else DErr.
+
+(* one chunk of an indefinite byte/text string: a definite string of the same major type
+   (Decoder::bytes / Decoder::str: the major type is tested on the initial byte, before the
+   length argument is read) *)
 Definition dec_chunk (m : major) (bs : list Z) : dres ((width * list Z) * list Z) :=
-  dbind (dec_head bs) (fun '(m', h, r) =>
-    match h with
-    | HArg w n =>
-      if major_eqb m' m then
-        dbind (take n r) (fun '(b, r') =>
-          if major_eqb m MajText && negb (utf8_valid b) then DErr else DOk ((w, b), r'))
-      else DErr
-    | HIndef => DErr
-    end).
+  match bs with
+  | [] => DEoi
+  | b :: r0 =>
+    if negb (byteb b) then DErr
+    else if major_eqb (major_of_code (b / 32)) m && negb (b mod 32 =? 31) then
+      dbind (dec_head bs) (fun '(_, h, r) =>
+        match h with
+        | HArg w n =>
+          dbind (take n r) (fun '(s, r') =>
+            if major_eqb m MajText && negb (utf8_valid s) then DErr else DOk ((w, s), r'))
+        | HIndef => DErr
+        end)
+    else mismatch b r0
+  end.
 
 Definition budget (bs : list Z) : nat := S (length bs).
 
